@@ -4,6 +4,7 @@
 #include <stdexcept>
 #include <algorithm>
 #include <cstring>
+#include <cstdint>
 
 namespace OP2Utility
 {
@@ -107,6 +108,16 @@ namespace OP2Utility
 		}
 
 		VerifyValidBitCount(bitCount);
+
+		// A negative width would be converted to a huge unsigned value by the pitch calculation, and
+		// the absolute value of the most negative height is not representable
+		if (width < 0) {
+			throw std::runtime_error("Image width must not be negative");
+		}
+
+		if (height == INT32_MIN) {
+			throw std::runtime_error("Image height is out of range");
+		}
 
 		if (usedColorMapEntries > CalcMaxIndexedPaletteSize()) {
 			throw std::runtime_error("Used color map entries is greater than possible range of color map (palette)");
